@@ -12,7 +12,7 @@ META = {
 REQUIRED = ['Librfn.C02.cyclecmp_window', 'Librfn.C02.timeout_ret', 'Librfn.C02.no_early_fire', 'Librfn.C02.fires_first_pass', 'Librfn.C02.expiry_order', 'Librfn.C02.expiry_order_is_due_then_registration', 'Librfn.C02.time_shift_invariance', 'Librfn.C02.time_base_irrelevant', 'Librfn.C02.cancel_on_run_kill_yield', 'Librfn.C02.cancelled_sleep_is_gone']
 
 
-TIE = ['Librfn.C02.Tie.duetime_cmp_generated', 'Librfn.C02.Tie.duetime_cmp_tie']
+TIE = ['Librfn.C02.Tie.duetime_cmp_generated', 'Librfn.C02.Tie.duetime_cmp_tie', 'Librfn.C02.Tie.fibre_timeout_generated', 'Librfn.C02.Tie.fibre_timeout_generated_mem', 'Librfn.C02.Tie.fibre_timeout_tie']
 
 
 def run(ctx):
@@ -23,7 +23,7 @@ def run(ctx):
     import regen
     for u, e in regen.regen(['FibreSeq']):
         ctx.broken.append(f'tie T: tools/c2lean2.py cannot translate unit {u}: {e}')
-    changed = [f'{u}: {c}' for u in ('FibreSeq',) for c in regen.signature_changes(u, only=['duetime_cmp'])]
+    changed = [f'{u}: {c}' for u in ('FibreSeq',) for c in regen.signature_changes(u, only=['duetime_cmp', 'fibre_timeout'])]
     mods, req = ['Librfn.Props.C02'], list(REQUIRED)
     if changed:
         ctx.broken.append('tie T: the interface of the regenerated duetime_cmp differs from the one Props/C02Tie.lean is stated against (' + '; '.join(changed)[:600] + ')')
@@ -32,9 +32,10 @@ def run(ctx):
 
     def allow(t, a):
         return t.startswith('Librfn.C02.Tie.') and '._native.bv_decide.ax_' in a and (
-            a.startswith('Librfn.C02.Tie.duetime_cmp_generated.'))
+            a.startswith('Librfn.C02.Tie.duetime_cmp_generated.') or a.startswith('Librfn.C02.Tie.fibre_timeout_generated.')
+            or a.startswith('Librfn.Sched.L.cyclecmp32_tie.'))
     sc.run_sched(ctx, META, mods, req, 'C02', allow_extra_axioms=allow)
-    ctx.cov['tie_T_generated_units'] = {'FibreSeq': ['duetime_cmp']}
+    ctx.cov['tie_T_generated_units'] = {'FibreSeq': ['duetime_cmp', 'fibre_timeout (list functions external, cyclecmp32 inlined)']}
 
 
 def replay(ctx, path):
